@@ -297,7 +297,7 @@ func nativeReplay(group string, files []replayFileT) (ok, bad int, msgs []string
 		n++
 		os.WriteFile(real, content, 0o644)
 		repl[virt] = real
-		if strings.Contains(virt, "internal/verifrt") {
+		if strings.Contains(virt, "internal/verifrt") || strings.Contains(virt, "zz_verif/kit/") {
 			continue
 		}
 		pkgDir = filepath.Dir(virt)
